@@ -19,9 +19,7 @@ PYTH = [[3, 4, 5], [4, 3, 5], [-3, 4, 5], [3, -4, 5], [5, 12, 13], [-12, 5, 13],
 
 def model_check(ctx):
     ctx.mc("Supercell", "MC_Supercell_q.cfg" if ctx.quick else "MC_Supercell_t.cfg",
-           label="1-D (quick) / 1-3 axis (thorough) lattices N in {2,3}, m in {2,3}, all unit phases, all basis states + dense state")
-    if ctx.quick:
-        ctx.mc("Supercell", "MC_Supercell_q2.cfg", label="two Bloch axes 2x2 cells tiled 2x2, all 16 phase pairs")
+           label="1-D lattices N in {2,3} x m in {2,3} and 2x2 cells tiled 2x2 (thorough: up to 3 tiled axes), all unit phases per axis, basis states + dense state")
     ctx.mc_negative("Supercell", "MC_Supercell_neg.cfg")   # phase on the wrong ghost cell
     ctx.mc_negative("Supercell", "MC_Supercell_neg2.cfg")  # L computed from N-1 cells
     if not ctx.quick:
